@@ -48,7 +48,8 @@ def run_part(ctx, quick):
     if rc != 0:
         raise vlib.CheckFailure("coq build of Extract/C02s failed:\n" + out[-3000:])
     exe = vlib.build_model("C02s", "extract/C02s.v", "ocaml/c02s_driver.ml")
-    harness, hsecs = vlib.build_harness("c02s", shims=_overlay_shims())
+    # VERIF_C02_TAGS=c02s_sanonly: SAN cases only (fast rebuilds while mutation-testing cue/errors, cue/token)
+    harness, hsecs = vlib.build_harness("c02s", shims=_overlay_shims(), tags=os.environ.get("VERIF_C02_TAGS") or None)
     build_s = round(time.time() - t0, 1)
 
     work = os.path.join(ctx.work, "santopo")
@@ -102,6 +103,9 @@ def run_part(ctx, quick):
             if fl.get("idem") == "0":
                 bad = "errors.Sanitize is not idempotent on this list (model: sanitize_idempotent)"
             base = group_base.setdefault(gid, (c, mv))
+            if coh == "11" and base[1] != mv:
+                bad = ("the extracted model is order dependent on a coherent list, contradicting "
+                       "SanitizeProofs.sanitize_perm (base order: %s -> %s)" % base)
             # rendered text must not depend on the order in which the errors were collected when the
             # list is position-coherent and either record-coherent or free of payload
             # (sanitize_perm / sanitize_keys_perm)
